@@ -8,6 +8,6 @@ CONSTANT InitMaxSize = 0
 CONSTANT HashMul = 1
 CONSTANT MaxNode = 4
 CONSTANT Scenarios <- Sc2
-SPECIFICATION Spec
+SPECIFICATION FairSpec
 INVARIANT TypeOK GhostOK SameValueSameIndex DiffValueDiffIndex DecodeOK NoNil OneInserter MapOK SlotsAgree ReservedOK SlotLocalOK IterOK LocksFree
-PROPERTY Refines ReturnsLinResult
+PROPERTY Termination Refines ReturnsLinResult
